@@ -33,6 +33,12 @@ def operator_tokens(ctx: Ctx):
     return ops
 
 
+def remapped_tokens(lc):
+    """{token: (source rule, literal)} for tokens produced by sly's `RULE['lit'] = TOKEN` remap: the
+    source rule matches first (a whole identifier), then the exact value selects the token type."""
+    return {new: (rule, lit) for rule, lit, new in lc.remaps if new and new != rule and lit is not None}
+
+
 def id_rule(ctx: Ctx):
     lc = ctx.main
     g = ctx.grammar
@@ -84,6 +90,11 @@ def rule_op_munch(ctx: Ctx, rid="C02.OP-MUNCH"):
         else:
             ctx.rep.ok(rid, f"language/lexer.py:{lc.name}.{r.name}",
                        f"no earlier operator rule is selected on a proper prefix of a {r.name} match", site=r.site)
+    for tok, (rule, lit) in remapped_tokens(lc).items():
+        if tok in ops:
+            n += 1
+            ctx.rep.ok(rid, f"language/lexer.py:{lc.name}.{tok}", f"{tok} is the {rule} rule's match {lit!r} re-typed by exact value: it cannot "
+                       "be selected on a prefix of a longer operator")
     ctx.rep.floor("operator token rules", n, 11)
 
 
@@ -142,6 +153,10 @@ def rule_wordsplit(ctx: Ctx, rid="C07.KEYWORD-WORDSPLIT"):
                         witness=hits[i], site=r.site, text=f"{r.name} = {r.pattern}")
         else:
             ctx.rep.ok(rid, f"language/lexer.py:{lc.name}.{r.name}", "cannot end inside a word", site=r.site)
+    for tok, (rule, lit) in remapped_tokens(lc).items():
+        if rule == lc.rules[idi].name:
+            n += 1
+            ctx.rep.ok(rid, f"language/lexer.py:{lc.name}.{tok}", f"{tok} is recognised as the whole identifier {lit!r} (remap): cannot end inside a word")
     ctx.rep.floor("alphabetic token rules", n, 13)
 
 
@@ -159,6 +174,13 @@ def rule_no_dead(ctx: Ctx, rid="C07.NO-DEAD-TOKEN"):
                 ctx.rep.bad(rid, f"language/lexer.py:{state}.{r.name}",
                             f"rule {r.name} ({r.pattern!r}) can never be selected: every text it matches is taken by an "
                             "earlier rule", site=r.site, text=f"{r.name} = {r.pattern}")
+        for tok, (rule, lit) in remapped_tokens(lc).items():
+            n += 1
+            r = L.select(lit)
+            good = r is not None and lc.rules[r[0]].name == rule and r[1] == len(lit)
+            ctx.rep.check(good, rid, f"language/lexer.py:{state}.{tok}", f"remapped from {rule} on the exact text {lit!r}, which {rule} selects" if good
+                          else f"token {tok} is remapped from {rule}[{lit!r}] but {lit!r} is not lexed as {rule}: the token can never be produced",
+                          text=f"{tok} <- {rule}[{lit}]")
     ctx.rep.floor("lexer rules", n, 37)
 
 
@@ -166,6 +188,7 @@ def rule_tokens_have_rules(ctx: Ctx, rid="C07.TOKEN-RULES"):
     """Every terminal the grammar uses is produced by some lexer rule that emits it."""
     lc = ctx.main
     emit = {r.name for r in lc.rules if r.emits and r.in_tokens}
+    emit |= {tok for tok, (rule, lit) in remapped_tokens(lc).items() if lc.rule(rule) is not None and lc.rule(rule).emits}
     for t in sorted(set(ctx.grammar.terminals) - {"error"}):
         used = any(t in p.syms for p in ctx.grammar.prods)
         if not used:
